@@ -97,3 +97,47 @@ CHECKS["C10"] = dict(
         technique="exhaustive enumeration of the generator argument grid with generated settings replayed into crypt on the implementation",
         ref="DESIGN.md 3/C10"),
 )
+
+CHECKS["C01"] = dict(
+    level="exploration",
+    jobs=lambda tier: [dict(name="c01", variant="o2", sources=["e_c01.c"] + RT)],
+    coverage=_cov("slab b: 16 methods x 2 canonical settings x every phrase length 0..511; slab a: every setting of the per-method grammar "
+                  "generators (prefix variants x cost spellings x salt lengths incl. over-cap x terminator shapes, with/without hash part; "
+                  "12.6 k quick / 32 k thorough, minus those above the compute budget) x boundary phrase lengths x fills A,P; slab c: DES "
+                  "salts (256 quick / all 4096 thorough) x 10 setting lengths x 23 phrase lengths; slab d: for successes the hash part "
+                  "replaced by 3 same-length texts of the method's hash alphabet and truncated to the setting part; "
+                  "distinct_nontrivial = distinct successful result strings"),
+    assumptions=["only successful first calls oblige anything",
+                 "settings whose decoded cost exceeds the compute budget are not hashed",
+                 "phrase contents come from two fills (ASCII cycle, position-distinct 8-bit)"],
+    nonvacuous=lambda s, t: None if s.get("successes", 0) > 20000 and s.get("hash_part_variants", 0) > 1000 and s.get("first_call_failed", 0) > 1000 else "too few successes/variants/rejections",
+    deadline=dict(quick=300, thorough=1700),
+    manifest=dict(
+        text="Bounded exhaustive exploration of the (phrase length, setting form) space against the real crypt_rn: every phrase length 0..511, "
+             "every generated setting form of all 16 methods, every DES salt across the descrypt/bigcrypt dispatch seam; the oracle is "
+             "differential (crypt(P,crypt(P,S)) == crypt(P,S); hash-part substitutions and setting-part truncations reproduce H), no stored expectations.",
+        note="gcc -O2 build of the working tree; grammar generators written from crypt.5; byte contents limited to two fills; compute budget excludes very high costs.",
+        technique="exhaustive enumeration of setting-form x phrase-length grids on the implementation with a differential round-trip oracle",
+        ref="DESIGN.md 3/C01"),
+)
+
+CHECKS["C06"] = dict(
+    level="exploration",
+    jobs=lambda tier: [dict(name="c06", variant="o2", sources=["e_c01.c"] + RT, args=["c06"])],
+    coverage=_cov("the C01 enumeration (slabs a, b, c) with the shape oracle on every successful result (passwd-safe, same tag, full match of the "
+                  "method's crypt.5 grammar incl. digest length and salt caps, accepted as setting, checksalt != INVALID, accepted as gensalt "
+                  "prefix of the same method), plus per method 4096 (quick) / 20000 (thorough) distinct phrases at a cheap setting, requiring "
+                  "every position of the hash portion to show exactly the number of characters its bit budget allows; "
+                  "distinct_nontrivial = distinct successful result strings"),
+    assumptions=["grammars are crypt.5's, widened where the documentation of the parsers accepts more (empty salts, $md5$rounds=, '$' in $7$ salts, any digit string as sha1crypt count, sha1crypt salts longer than 64)",
+                 "$2x$: the result selects the same method as a gensalt prefix and that generator refuses by design (EINVAL)"],
+    nonvacuous=lambda s, t: None if s.get("shape_checked", 0) > 20000 and s.get("positions_checked", 0) > 400 else "too few shapes or positions checked",
+    deadline=dict(quick=300, thorough=1700),
+    manifest=dict(
+        text="Bounded exhaustive exploration: every successful result of the C01 grid (all phrase lengths, all generated setting forms, DES seam) "
+             "plus a digest-diversity slab that makes every hash position take every value of its alphabet, each checked against the per-method "
+             "grammar of crypt.5 and fed back to crypt_rn, crypt_checksalt and crypt_gensalt_rn.",
+        note="grammars are an independent reading of crypt.5; the diversity slab shows value-dependent encoding paths are exercised (measured per position).",
+        technique="exhaustive enumeration of the result space reachable from the setting-form x phrase-length grid, with grammar and re-acceptance oracles",
+        ref="DESIGN.md 3/C06"),
+)
